@@ -47,14 +47,17 @@ func (a *afPacketSource) SetReadDeadline(t time.Time) error {
 // Read reads a packet (starting with the IP frame)
 func (a *afPacketSource) Read(buf []byte) (int, error) {
 	var payload []byte
-	for payload == nil {
+	// skip frames that carry no IP payload (non-IP ethertype, runt or empty frames):
+	// they are unrelated traffic, not a failure of the socket
+	for len(payload) == 0 {
 		n, err := a.sock.Read(buf)
 		if err != nil {
 			return n, err
 		}
 		payload, err = stripEthernetHeader(buf[:n])
 		if err != nil {
-			return n, err
+			log.Tracef("afPacketSource skipped a frame without a valid ethernet header: %s", err)
+			payload = nil
 		}
 	}
 	copy(buf, payload)
